@@ -134,12 +134,15 @@ func runConc(h *common.History, rng *rand.Rand, rd []rdesc, hd []hdesc) {
 			dst := &net.UDPAddr{IP: ipOf(fl.dstIP), Port: fl.dstPort}
 			for i := 0; i < fl.count; i++ {
 				buf := pattern(fl.id, i, fl.lens[i])
+				dst.IP, dst.Port = ipOf(fl.dstIP), fl.dstPort
 				if _, err := w.socks[fl.sender].WriteTo(buf, dst); err != nil {
 					panic(err)
 				}
 				for j := range buf {
 					buf[j] = 0xEE // the caller's buffer is its own again
 				}
+				dst.Port = 9 // ... and so is the address value
+				dst.IP[3] ^= 0xFF
 				if r.IntN(3) == 0 {
 					runtime.Gosched()
 				}
